@@ -1,4 +1,5 @@
 import Usid.Model.Dup
+import Usid.Proofs.Process
 /-! C05 — results are reused only for same dataset, tool, parameters, and if complete. -/
 namespace Usid.C05
 open Usid Usid.Grp Usid.Attrs Usid.Dup
@@ -257,5 +258,126 @@ example : decision [{ name := "Raw-Fit_000".toList, status := .dataset 2 1 true 
     "Raw".toList "Fit".toList [] 2 false = .returnExisting "Raw-Fit_000".toList := by decide
 example : decision [{ name := "Raw-Fit_000".toList, status := .dataset 2 1 true [2, 2] }]
     "Raw".toList "Fit".toList [] 2 false = .fresh := by decide
+
+/-- (the two legacy cases of `Usid.C03.pending_at_start`, restated on the helper lemmas) -/
+theorem pending_at_start_legacy (n : Nat) :
+    (∀ k : Nat, 0 < k → Usid.Proc.pending (Usid.Proc.initialStatus n none (some (k : Int))) = List.range' (min k n) (n - k)) ∧
+    (∀ k : Int, k ≤ 0 → Usid.Proc.pending (Usid.Proc.initialStatus n none (some k)) = List.range n) := by
+  have hz : Usid.Proc.pending (List.replicate n 0) = List.range n := by
+    unfold Usid.Proc.pending; rw [Usid.Proc.pendingFrom_zeros, List.range_eq_range']
+  refine ⟨?_, ?_⟩
+  · intro k hk
+    have : ((k : Int) > 0) := by omega
+    simp only [Usid.Proc.initialStatus, this, if_true, Int.toNat_natCast]
+    exact Usid.Proc.pending_markPrefix_zeros n k
+  · intro k hk
+    have : ¬ (k > 0) := by omega
+    simp only [Usid.Proc.initialStatus, this, if_false]
+    exact hz
+
+/-! ### the decision (C05) and the run (C03) read the progress record alike -/
+
+/-- the completion marks `compute()` starts from when it resumes in group `g` (model of C03) -/
+def startMarks (n : Nat) (g : ResGroup) : List Nat :=
+  Usid.Proc.initialStatus n (match g.status with | .dataset _ _ _ vals => some vals | _ => none) g.lastPixel
+
+theorem pending_nil_iff (st : List Nat) : Usid.Proc.pending st = [] ↔ ∀ v ∈ st, v ≠ 0 := by
+  constructor
+  · intro h v hv h0
+    obtain ⟨i, hi, hget⟩ := List.getElem_of_mem hv
+    have : i ∈ Usid.Proc.pending st := (Usid.Proc.mem_pending st i).mpr (by
+      rw [List.getElem?_eq_getElem hi, hget, h0])
+    rw [h] at this; cases this
+  · intro h
+    cases hp : Usid.Proc.pending st with
+    | nil => rfl
+    | cons p ps =>
+      have hm : p ∈ Usid.Proc.pending st := by rw [hp]; exact List.mem_cons_self
+      have h0 := (Usid.Proc.mem_pending st p).mp hm
+      have hlt : p < st.length := by
+        by_cases hl : p < st.length
+        · exact hl
+        · rw [List.getElem?_eq_none (by omega)] at h0; cases h0
+      rw [List.getElem?_eq_getElem hlt] at h0
+      exact absurd (Option.some.inj h0) (h _ (List.getElem_mem hlt))
+
+/-- **A group is returned as complete exactly when resuming in it would compute nothing; it is resumed exactly
+    when something is pending.**  For every group whose progress record is usable (a status dataset of `n`
+    entries, or - in the legacy form - the attribute `last_pixel`) and every `n ≥ 1`: the classification of
+    `_check_for_duplicates` (C05) agrees with the pending list `compute()` derives from the same record (C03). -/
+theorem complete_iff_nothing_pending (n : Nat) (hn : 0 < n) (g : ResGroup)
+    (hrec : (∃ len rank u8 vals, g.status = .dataset len rank u8 vals ∧ statusUsable n g.status = true ∧ vals.length = n) ∨
+            (g.status = .absent ∧ ∃ lp, g.lastPixel = some lp)) :
+    ((classify n g).1 = .dup ↔ Usid.Proc.pending (startMarks n g) = []) ∧
+    ((classify n g).1 = .part ↔ Usid.Proc.pending (startMarks n g) ≠ []) := by
+  rcases hrec with ⟨len, rank, u8, vals, hs, hu, hlen⟩ | ⟨hs, lp, hlp⟩
+  · have hst : startMarks n g = vals := by simp [startMarks, hs, Usid.Proc.initialStatus]
+    have hall : ∀ v ∈ vals, v ≤ 1 := by
+      rw [hs] at hu
+      simp only [statusUsable, Bool.and_eq_true, List.all_eq_true, decide_eq_true_eq] at hu
+      exact hu.2
+    have hcount : (vals.filter (· == 1)).length = n ↔ ∀ v ∈ vals, v ≠ 0 := by
+      constructor
+      · intro h v hv h0
+        have hf := filter_full (· == 1) vals (by rw [h, hlen]; exact Nat.le_refl _) v hv
+        simp only [beq_iff_eq] at hf
+        omega
+      · intro h
+        have : vals.filter (· == 1) = vals := by
+          rw [List.filter_eq_self]
+          intro v hv
+          have h1 := hall v hv
+          have h2 := h v hv
+          simp only [beq_iff_eq]; omega
+        rw [this, hlen]
+    have hle : (vals.filter (· == 1)).length ≤ n := by rw [← hlen]; exact List.length_filter_le _ _
+    have hpn := pending_nil_iff vals
+    rw [hst]
+    unfold classify
+    rw [hs] at hu ⊢
+    simp only [hu, Bool.not_true, Bool.false_eq_true, if_false]
+    by_cases hc : (vals.filter (· == 1)).length < n
+    · have hne : ¬ ∀ v ∈ vals, v ≠ 0 := fun h => by have := hcount.mpr h; omega
+      have hne' : Usid.Proc.pending vals ≠ [] := fun h => hne (hpn.mp h)
+      simp [hc, hne']
+    · have heq : (vals.filter (· == 1)).length = n := by omega
+      have he : Usid.Proc.pending vals = [] := hpn.mpr (hcount.mp heq)
+      simp [hc, he]
+  · have hst : startMarks n g = Usid.Proc.initialStatus n none (some lp) := by simp [startMarks, hs, hlp]
+    have hp := pending_at_start_legacy n
+    unfold classify
+    rw [hs, hlp, hst]
+    simp only
+    by_cases hpos : 0 < lp
+    · obtain ⟨k, rfl⟩ : ∃ k : Nat, lp = (k : Int) := ⟨lp.toNat, by omega⟩
+      have hk : 0 < k := by omega
+      rw [hp.1 k hk]
+      by_cases hc : (k : Int) < (n : Int)
+      · have : k < n := by omega
+        have hne : List.range' (min k n) (n - k) ≠ [] := by
+          intro h
+          have := congrArg List.length h
+          simp at this; omega
+        simp [hc, hne]
+      · have : n ≤ k := by omega
+        have he : List.range' (min k n) (n - k) = [] := by
+          have : n - k = 0 := by omega
+          rw [this]; rfl
+        simp [hc, he]
+    · rw [hp.2 lp (by omega)]
+      have hc : lp < (n : Int) := by omega
+      have hne : List.range n ≠ [] := by
+        intro h
+        have := congrArg List.length h
+        simp at this; omega
+      simp [hc, hne]
+
+/-- non-vacuity: a usable partial record, and the legacy form -/
+example : (classify 3 { name := [], status := .dataset 3 1 true [1, 0, 1] }).1 = .part ∧
+    Usid.Proc.pending (startMarks 3 { name := [], status := .dataset 3 1 true [1, 0, 1] }) = [1] ∧
+    (classify 3 { name := [], lastPixel := some 2 }).1 = .part ∧
+    Usid.Proc.pending (startMarks 3 { name := [], lastPixel := some 2 }) = [2] ∧
+    (classify 3 { name := [], lastPixel := some 3 }).1 = .dup ∧
+    Usid.Proc.pending (startMarks 3 { name := [], lastPixel := some 3 }) = [] := by decide
 
 end Usid.C05
